@@ -273,7 +273,14 @@ pub fn check_case(schema: &str, op: &str, frag: &str, config: &str) -> Vec<Viola
     let op_files = vec![("/proj/op.graphql".to_string(), op.to_string()), ("/proj/frag.graphql".to_string(), frag.to_string())];
     let r = run_project(&ProjectInput { schema_files: &schema_files, op_files: &op_files, config, generate: false, check_only: false });
     for (stage, p) in &r.panics {
-        out.push(mk(stage, p));
+        let mut v = mk(stage, p);
+        if p.site().starts_with("crates/printer/") {
+            // a printer that trips after an accepted check: say whether the listed root cause (bodies of unused
+            // fragments are never checked) can be behind it, so that any other way to get there has its own signature
+            let unused = [op, frag].iter().any(|t| crate::refparse::parse_exec(t).map(|d| has_unused_fragment(&d)).unwrap_or(false));
+            v.sig = format!("{}|{}", v.sig, if unused { "document-has-unused-fragment" } else { "every-fragment-used" });
+        }
+        out.push(v);
     }
     // introspection reader on arbitrary text
     for t in [schema, config] {
@@ -365,8 +372,8 @@ fn gen_inputs(rng: &mut Rng) -> (String, String, String, String, &'static str) {
             if let Some(d) = gen_valid_doc(rng, &ix, &oo) {
                 schema = render_ts(&sm, None, Feat::plain());
                 op = render_exec(&d, None, Feat::plain());
-                let first_obj = ix.order.iter().find(|t| ix.kind(t) == Some(crate::model::TKind::Object)).cloned().unwrap_or_else(|| "Query".into());
-                frag = format!("fragment Unrelated on {first_obj} {{ __typename }}\n");
+                // the second file must not hold an unused fragment (the listed finding's precondition): an operation instead
+                frag = "query Unrelated { __typename }\n".to_string();
                 let mut cfg = String::from("schema: ./schema.graphql\ndocuments: ./*.graphql\nextensions:\n  nitrogql:\n    generate:\n      schemaOutput: ./out/schema.d.ts\n      resolversOutput: ./out/resolvers.d.ts\n      serverGraphqlOutput: ./out/server.ts\n      type:\n        scalarTypes:\n");
                 let mut any = false;
                 for t in &ix.order {
@@ -589,6 +596,24 @@ fn spreads_of(ss: &crate::model::SelSet, out: &mut Vec<String>) {
             crate::model::Sel::Inline { sels, .. } => spreads_of(sels, out),
         }
     }
+}
+
+/// a fragment that no operation of the document reaches (its body is never checked: the listed finding's precondition)
+pub fn has_unused_fragment(doc: &crate::model::ExecDoc) -> bool {
+    use std::collections::BTreeSet;
+    let mut reach: BTreeSet<String> = BTreeSet::new();
+    let mut work: Vec<String> = vec![];
+    for o in doc.ops() {
+        spreads_of(&o.sels, &mut work);
+    }
+    while let Some(n) = work.pop() {
+        if reach.insert(n.clone()) {
+            if let Some(f) = doc.frag(&n) {
+                spreads_of(&f.sels, &mut work);
+            }
+        }
+    }
+    doc.frags().any(|f| !reach.contains(&f.name.s))
 }
 
 /// a fragment that transitively spreads itself and is not reachable from any operation of the document
